@@ -62,9 +62,11 @@ def run(pid, tier, seed):
             if k == "sut-panic":
                 rep.violation({"go_test_output": out[-4000:]}, "code under test panicked:\n" + out[-1500:])
                 return rep.finish()
-            raise vlib.Inconclusive("harness %s failed:\n%s" % (run_re, out[-3000:]))
+            if k != "stopped":
+                raise vlib.Inconclusive("harness %s failed:\n%s" % (run_re, out[-3000:]))
+            rep.stopped = "watchdog: the run did not come to rest"
         out_traces[key] = vlib.read_ndjson(tp)
-    st = json.load(open(stats))
+    st = json.load(open(stats)) if os.path.exists(stats) else {}
     rep.extra["schedules"] = {k: {"dfs": v[0], "random": v[1], "exhaustive": bool(v[2])} for k, v in st.items()}
     rep.extra["trace_events"] = sum(len(v) for v in out_traces.values())
     nfail = 0
